@@ -55,6 +55,7 @@ pub fn alphabet(reg: Reg) -> Vec<(&'static str, Step)> {
         ("dr-shift-rx2", send(RxPlan::rx2(Recipe::auth_cmds(2, dr_shift)))),
         ("answers-rx1", send(RxPlan { gap1: vec![Recipe::BitFlip { bit: 77, with_cmds: true }], rx1: vec![Recipe::auth_cmds(1, answers)], ..Default::default() })),
         ("replay-oversize", send(RxPlan { rx1: vec![Recipe::Replay(0)], rx2: vec![Recipe::Oversize { authentic: true, excess: 3 }], ..Default::default() })),
+        ("fopts-and-port0", send(RxPlan::rx1(Recipe::AuthRaw { delta: 1, confirmed: true, fopts: vec![0x06], port: Some(0), frm: vec![0x06, 0x0D] }))),
         ("join-ok", Step::Join(RxPlan::rx1(ja(Some(cf_a), 0x13)))),
         ("join-rx2-bad-dl", Step::Join(RxPlan { rx1: vec![jaw(None, 0x00, true)], rx2: vec![ja(Some(RefCfList::Raw([0xA5; 16])), 0xFF)], ..Default::default() })),
         ("join-timeout", Step::Join(RxPlan::default())),
